@@ -37,6 +37,8 @@ type Case struct {
 	Kind  string `json:"kind"`
 	Type  string `json:"type"` // date | roman | sem | size | uu
 	Steps []Step `json:"steps,omitempty"`
+	// SizeRule (size histories only): size.DefaultRule for the history; 0 keeps the library default (string and object form).
+	SizeRule int `json:"size_default_rule,omitempty"`
 	// NoLimit runs the history with the type's package MaxInputLength disabled (long inputs then reach the parsers).
 	NoLimit bool   `json:"no_limit,omitempty"`
 	A       vkit.B `json:"a,omitempty"`
@@ -140,6 +142,11 @@ func judgeHistory(c Case, w *vkit.W) (failAfterSuccess bool) {
 		old := *p
 		*p = 0
 		defer func() { *p = old }()
+	}
+	if c.Type == "size" && c.SizeRule != 0 {
+		old := size.DefaultRule
+		size.DefaultRule = size.Rule(c.SizeRule)
+		defer func() { size.DefaultRule = old }()
 	}
 	r := newReceiver(c.Type)
 	model := r.get()
@@ -339,7 +346,7 @@ var validTexts = map[string][]string{
 	"uu":    {"00000000-0000-0000-0000-000000000001", "urn:uuid:123e4567-e89b-12d3-a456-426614174000", "123E4567-E89B-12D3-A456-426614174000", "ffffffff-ffff-4fff-bfff-ffffffffffff"},
 }
 
-var sizeJSON = []string{`10`, `"20 KiB"`, `{"value":1,"unit":"KiB"}`, `{"unit":"MB","value":3,"x":[1,{"y":null}]}`, ` {"value":5,"unit":"B"} `, `"1_000"`, `18446744073709551615`,
+var sizeJSON = []string{`"7" "8"`, `"7" x`, `7 8`, `"7"`, `"7 B"`, `{"value":7,"unit":"B"} 8`, `10`, `"20 KiB"`, `{"value":1,"unit":"KiB"}`, `{"unit":"MB","value":3,"x":[1,{"y":null}]}`, ` {"value":5,"unit":"B"} `, `"1_000"`, `18446744073709551615`,
 	`{"value":1}`, `{"value":1,"unit":"KiB"`, `{"value":1,"unit":"KiB"}}`, `10 x`, `"1 kB" 2`, `{"value":-1,"unit":"B"}`, `{"value":"1","unit":"B"}`, `[1]`, `null`, `true`, `1.5`, `"x"`, `{"value":1,"unit":"KiB","value":2}`, `{"value":18446744073709551615,"unit":"kB"}`}
 
 func mutateText(rt *rapid.T, s string) string {
@@ -462,6 +469,9 @@ func TestCheck(t *testing.T) {
 				ops := opsFor(typ)
 				n := rapid.IntRange(1, 30).Draw(rt, "steps")
 				c := Case{Kind: "history", Type: typ, NoLimit: rapid.IntRange(0, 3).Draw(rt, "noLimit") == 0}
+				if typ == "size" {
+					c.SizeRule = rapid.SampledFrom([]int{0, 0, 7, 3, 5, 15, 2, 4, 1}).Draw(rt, "sizeDefaultRule")
+				}
 				for i := 0; i < n; i++ {
 					op := rapid.SampledFrom(ops).Draw(rt, "op")
 					st := Step{Op: op, Input: vkit.B(genInput(rt, typ, op))}
@@ -502,6 +512,12 @@ func TestCheck(t *testing.T) {
 						}
 					}
 					pool = append(pool, string(b))
+					// a second defect elsewhere: two faults in one text must be reported alike by every instantiation
+					if len(b) > 2 {
+						b2 := append([]byte{}, b...)
+						b2[g.Intn(len(b2))] = " x-0:."[g.Intn(6)]
+						pool = append(pool, string(b2))
+					}
 				}
 			}
 			if typ == "size" {
